@@ -30,6 +30,12 @@ def sweep_history(prop, seed, agg, opts):
 def sweep_base(base, seed, agg, opts):
     """crash-point / fault-position / zombie-schedule sweep of one fault-free base history (C19)"""
     from checks.runner import run_record
+    if base["knobs"].get("wide") and base["knobs"].get("fine_grained"):
+        # line-level pre-emption of requests of > 50 uris costs seconds per run: the seeded search covers that
+        # combination, the sweep (hundreds of re-runs of one history) takes the history at I/O granularity
+        base = _clone(base)
+        base["knobs"]["fine_grained"] = False
+        agg.c["sweep_wide_history_at_io_granularity"] += 1
     w = run_record(base, mut_trace=True)
     agg.add_world(w, tag="sweep-base")
     if w.violation or w.harness:
@@ -40,7 +46,12 @@ def sweep_base(base, seed, agg, opts):
     # the initial open) is a crash point
     crash_ids = {o["id"] for o in base["ops"] if o["op"] in ("GET", "REMOVE", "PURGE", "REOPEN")} | {-1}
     points = [t for t in trace if t[0] in crash_ids]
-    limit = opts.get("crash_limit", 200)
+    # the number of re-runs is scaled to what one run of this history costs (a deterministic measure: its yield
+    # points), so that one expensive history cannot eat a task's wall-clock limit (found by a soak, DESIGN 15.5)
+    cost_cap = max(24, 5_000_000 // max(1, w.sched.step))
+    if cost_cap < max(opts.get("crash_limit", 200), opts.get("fault_limit", 150)):
+        agg.c["sweep_limits_scaled_to_cost"] += 1
+    limit = min(opts.get("crash_limit", 200), cost_cap)
     if len(points) > limit:
         idx = sorted(rng.sample(range(len(points)), limit))
         points = [points[i] for i in idx]
@@ -57,7 +68,7 @@ def sweep_base(base, seed, agg, opts):
     # single faults at every download position
     keys = base["knobs"]["keys"]
     nfault = 0
-    flimit = opts.get("fault_limit", 150)
+    flimit = min(opts.get("fault_limit", 150), cost_cap)
     plan = []
     for o in base["ops"]:
         if o["op"] != "GET":
@@ -102,7 +113,7 @@ def sweep_base(base, seed, agg, opts):
                     for pol in ({"policy": "pct", "d": 1}, {"policy": "pct", "d": 3}, {"policy": "sticky", "p": 0.5},
                                 {"policy": "uniform"}):
                         zplan.append((o, k, kind, pol))
-    zl = opts.get("zombie_limit", 60)
+    zl = min(opts.get("zombie_limit", 60), cost_cap)
     if len(zplan) > zl:
         idx = sorted(rng.sample(range(len(zplan)), zl))
         zplan = [zplan[i] for i in idx]
